@@ -9,7 +9,7 @@ def run(R):
     # loop() is verified against the contracts of getNow / syncNow: those are re-verified here too
     names += [n for n in common.names_for(R, 'C13') if n.endswith('getNow() const') or 'syncNow' in n]
     obs = check.verify_functions(R, names)
-    obs += common.avr_pass(R, names, leave_out=('getNow#post#exact-time',))
+    obs += common.avr_pass(R, names, leave_out=('SystemClock::getNow#',))
     check.discharge(R, obs, timeout=120)
     R.assumptions += [
         'ghost time as in C13; for the loop() machine clockMillis() is the true elapsed time (no wrap of unsigned long: elapsed < 2^62 ms)',
